@@ -66,6 +66,10 @@ NEG = [
     ("Geo", "MC_Geo_neg_axes", None),
     ("Geo", "MC_Geo_neg_fill", None),
     ("NetcdfFiles", "MC_NetcdfFiles_neg_memo", "LoadReturnsLastSaved"),
+    ("Column", "MC_Column_neg_previous", "InLayer"),
+    ("Column", "MC_Column_neg_dz", "InLayer"),
+    ("Column", "MC_Column_neg_top", "TopFromTopNode"),
+    ("Column", "MC_Column_neg_weights", "MeanQuadrature"),
 ]
 
 
